@@ -433,7 +433,7 @@ Proof. exact (fun T N L svd => source_tie_find_preconditioned_all N L svd). Qed.
 
 (* END TO END, over the reals.  [optimal_proper_motion d pairs H] is the conclusion of
    C04_kabsch_estimate_is_optimal_proper_rotation about the matrix H: *)
-Theorem C04_optimal_proper_motion_means :
+Theorem C04_source_optimal_proper_motion_means :
   forall d pairs H, optimal_proper_motion d pairs H <->
   ((is_orth d (mget ROps H) /\ fdet ROps d (mget ROps H) = 1) /\
    forall Q tau, is_orth d Q -> fdet ROps d Q = 1 ->
@@ -509,7 +509,7 @@ Qed.
    context; the end-to-end corollaries use the axioms of the real numbers, like the theorems they restate) *)
 Definition C04_source_tie_statements :=
   (C04_source_tie_literal_laws_hold_over_the_reals, C04_source_tie_estimate, C04_source_tie_find_plain,
-   C04_source_tie_find_preconditioned, C04_optimal_proper_motion_means, C04_source_estimate_corr_is_optimal_proper_rotation,
+   C04_source_tie_find_preconditioned, C04_source_optimal_proper_motion_means, C04_source_estimate_corr_is_optimal_proper_rotation,
    C04_source_estimate_aligned_is_optimal_proper_rotation, C04_source_find_preconditioned_is_optimal_for_the_original_pairs).
 Print Assumptions C04_source_tie_statements.
 Definition C04_source_tie_generic_statements := (C04_source_tie_estimate, C04_source_tie_find_plain, C04_source_tie_find_preconditioned).
